@@ -18,7 +18,7 @@ DirectPart        small direct tests (harness/evt/anysched.cpp): any_scheduler /
                   equality matches the wrapped schedulers, type_erased_stream yields what the wrapped
                   stream yields.
 """
-import os, random, subprocess, time
+import os, random, re, subprocess, time
 from . import vlib, evt
 
 CFGS = ["dflt", "small", "throw", "al64", "tiny", "wide", "unique"]
@@ -43,7 +43,8 @@ def run_lines(exe, lines, prefix, timeout=900, max_crashes=6):
             out[start + k] = complete[k]
         if (r.returncode == 0 and n == len(lines) - start) or start + n >= len(lines):
             break
-        crashes.append((start + n, evt.crash_site(r.stderr), r.stderr[-3000:]))
+        # stable site string: no addresses
+        crashes.append((start + n, re.sub(r"0x[0-9a-f]+", "ADDR", evt.crash_site(r.stderr)), r.stderr[-3000:]))
         start = start + n + 1
     return out, crashes
 
@@ -314,7 +315,7 @@ class WrapInsertPart:
             # says nothing about the wrapper: drop those pairs
             crashed_orig = {k for k, _, _ in ca}
             skipped = len(crashed_orig)
-            keep = [k for k in range(len(orig)) if k not in crashed_orig]
+            keep = [k for k in range(len(orig)) if k not in crashed_orig and a[k] is not None]   # None: not run (abort cap reached)
             orig = [orig[k] for k in keep]; wrapped = [wrapped[k] for k in keep]; a = [a[k] for k in keep]
             b, cb = run_lines(exe, wrapped, "case ")
         except subprocess.TimeoutExpired:
